@@ -61,9 +61,11 @@ def strategy(draw, tier="quick"):
     case = {"kind": kind, "seed": draw(st.integers(0, 2 ** 31)), "nf": draw(st.integers(1, 4)),
             "npts": draw(st.sampled_from([1, 2, 17, 100, 100, 960])), "probe": draw(st.sampled_from([0.0, 0.05, 0.14, 0.14, 0.3])),
             "mode": draw(st.sampled_from(["atom", "atom", "residue"])),
-            "change": draw(st.sampled_from([None, None, {"C": 0.2}, {"H": 0.1, "O": 0.16}])),
+            "change": draw(st.sampled_from([None, None, {"C": 0.2}, {"H": 0.1, "O": 0.16}, {"H": 0.0}, {"C": 0.0, "N": 0.3}])),
             "subset": draw(st.sampled_from(["none", "none", "proper", "residue", "single", "proper-unsorted", "proper-list"])),
             "n": draw(st.integers(3, 40)), "sep": draw(st.floats(0.05, 1.0)), "offset": draw(st.sampled_from([0.0, 0.0, 20.0]))}
+    if case["change"] and 0.0 in case["change"].values() and case["probe"] == 0.0:
+        case["probe"] = 0.05       # (radius 0 and probe 0 would be a sphere of radius 0: no surface to speak of)
     if kind == "protein":
         case["n"] = draw(st.integers(20, 120))
         if case["npts"] == 960:
